@@ -587,6 +587,7 @@ func combine(variables MatchedVariables, predicates []Predicate, expressions []E
 			}
 
 			// extract and check variables, check expressions, send variables
+			verifPoint("combine.step")
 			var vars = variables.Clone()
 			var matching = true
 
